@@ -10,7 +10,7 @@ LEVEL_NOTE = ("Coq theorem C16_holds (every plan, every group size): from the mo
 RULE = ("group sizes {2,3,8,24,48} (thorough: 2..64) at the first, middle or last position of a 3-layer plan and under a second command; non-trivial = every case (the barrier makes sequential "
         "execution fail); distinct by (size, position, commands)")
 
-def case(ctx, rng, n, position, two_cmds):
+def case(ctx, rng, n, position, two_cmds, undefined_ahead=0):
     members = ["grp/m%02d" % i for i in range(n)]
     targets = []
     if position in ("middle", "last"): targets.append({"path": "base"})
@@ -23,13 +23,23 @@ def case(ctx, rng, n, position, two_cmds):
     cfg = {"targets": targets}
     cmds = ["lint", "build"] if two_cmds else ["build"]
     rr = runscen.RunRepo(ctx, cfg, commands=cmds)
+    # commands no target defines: their entries are `undefined`, nothing is started for them, and they must not
+    # slow down or starve the groups that follow
+    ghost = ["ghost%d" % i for i in range(undefined_ahead)]
+    cmds = ghost + cmds
     try:
         rr.script = {"*": {}}
         for m in members: rr.script["build|%s" % m] = {"barrier": n, "barrier_id": "g"}
         rr.write_script()
-        rc, out, err, raw = rr.run("-c", *cmds, timeout=120)
+        try:
+            rc, out, err, raw = rr.run("-c", *cmds, timeout=120)
+        except Exception as e:
+            import subprocess
+            subprocess.run(["pkill", "-f", rr.repo], capture_output=True)
+            rc, out, err, raw = -9, None, {"type": "timeout", "message": str(e)[:200]}, None
         traces = rr.traces()
-        c = {"size": n, "position": position, "commands": cmds}
+        c = {"size": n, "position": position, "commands": cmds, "undefined_ahead": undefined_ahead}
+        ctx.count("undefined_ahead_%d" % (undefined_ahead * len(targets)))
         ctx.count("size_%d" % n); ctx.count("pos_" + position)
         if out is None:
             ctx.record(c, True, False, False, True, detail={"what": "no result document", "rc": rc, "err": err}); return
@@ -53,8 +63,11 @@ def run(ctx, scale):
     sizes = [2, 3, 8, 24, 48] if ctx.quick() else [2, 3, 4, 5, 8, 13, 16, 24, 32, 48, 64] * 3
     for i, n in enumerate(sizes * scale):
         case(ctx, random.Random(rng.getrandbits(32)), n, ["first", "middle", "last"][i % 3], i % 2 == 1)
+    # the same, behind a few hundred plan entries that start nothing
+    for n in ([24, 48] if ctx.quick() else [8, 24, 48, 64]):
+        case(ctx, random.Random(rng.getrandbits(32)), n, "first", False, undefined_ahead=-(-300 // n))
 
 def replay(ctx, c):
     c = c.get("case", c)
-    case(ctx, random.Random(ctx.seed), c["size"], c["position"], len(c.get("commands", [])) > 1)
+    case(ctx, random.Random(ctx.seed), c["size"], c["position"], "lint" in c.get("commands", []), c.get("undefined_ahead", 0))
     return {"spec_failures": [d for _, d in ctx.spec_failures][:3], "disagreements": [d for _, d in ctx.tie_breaks][:3]}
